@@ -70,7 +70,7 @@ ssize_t HeaderStreamProto::onRecvData(const void *data_ptr, size_t data_size)
         return -2;
     }
 
-    if (content_size + kHeadSize > data_size)   //! 不够
+    if (content_size > data_size - kHeadSize)   //! 不够（不能用加法比较，content_size 来自对端，相加可能溢出）
         return 0;
 
     const char *str_ptr = static_cast<const char*>(unpack.fetchNoCopy(content_size));
